@@ -9,11 +9,12 @@ THEOREMS = ["Rspirv.Props.C19.append_token", "Rspirv.Props.C19.step_extends", "R
             "Rspirv.Props.C19.fetch_cases", "Rspirv.Props.C19.C19_run", "Rspirv.Props.C19.C19_fresh",
             "Rspirv.Props.C19.C19_stable"]
 
-CLASSES = [0, 1, 2, 100, 101]
+CLASSES = [0, 1, 2, 100, 101, 1000, 1001]
 
 
 def veq(a, b):
-    return a != 0 and (a == b or (a >= 100 and a + 1 == b))
+    """the harness's equality: irreflexive for class 0 and classes 1000..1999, asymmetric (a class >= 100 also equals class + 1 on the right)"""
+    return a != 0 and ((a == b and not 1000 <= a < 2000) or (a >= 100 and a + 1 == b))
 
 
 def oracle(req, resp):
@@ -74,7 +75,7 @@ def gen(ctx):
     rnd = random.Random(ctx.seed)
     reqs = []
     # exhaustive short histories: ops x classes, lengths 0..L
-    L = 4 if ctx.tier == "quick" else 5
+    L = 4
     alpha = [(k, c) for k in ("a", "f") for c in CLASSES]
     for n in range(0, L + 1):
         for w in itertools.product(alpha, repeat=n):
@@ -89,7 +90,7 @@ def gen(ctx):
         ops = []
         for i in range(n):
             k = "f" if (i % 97 == 5) else "a"
-            ops.append(f"{k}:{i + 1}:{rnd.choice([0, 1000 + i, 1000 + i, 100 + (i % 7)])}")
+            ops.append(f"{k}:{i + 1}:{rnd.choice([0, 10000 + i, 10000 + i, 100 + (i % 7), 1000 + (i % 3)])}")
         reqs.append("store " + " ".join(ops))
     fl = [0, 0x80000000, 0x7fc00000, 0x7fc00001, 0xffc00000, 0x3f800000, 0xbf800000, 0x7f800000, 1, 0x7f7fffff]
     for _ in range(N):
@@ -116,12 +117,12 @@ def run(ctx):
         ops = []
         for i in range(n):
             if i % 997 == 5:
-                ops.append(f"f:{i + 1}:{1000 + 2 * (i // 2)}")          # equal to the value stored at position i // 2 (or new if that was a fetch)
+                ops.append(f"f:{i + 1}:{10000 + 2 * (i // 2)}")          # equal to the value stored at position i // 2 (or new if that was a fetch)
             elif i % 4999 == 7:
-                ops.append(f"a:{i + 1}:{1000 + 2 * (i // 3)}")          # an appended duplicate of an earlier value
+                ops.append(f"a:{i + 1}:{10000 + 2 * (i // 3)}")          # an appended duplicate of an earlier value
             else:
-                ops.append(f"a:{i + 1}:{1000 + 2 * i}")
-        ops += [f"f:{n + 1}:{1000 + 2 * (n - 3)}", f"f:{n + 2}:{1000 + 2 * 8}", f"a:{n + 3}:0", f"f:{n + 4}:{1000 + 2 * 65540}"]
+                ops.append(f"a:{i + 1}:{10000 + 2 * i}")
+        ops += [f"f:{n + 1}:{10000 + 2 * (n - 3)}", f"f:{n + 2}:{10000 + 2 * 8}", f"a:{n + 3}:0", f"f:{n + 4}:{10000 + 2 * 65540}", f"a:{n + 5}:1000", f"f:{n + 6}:1001", f"f:{n + 7}:1000"]
         big.append("store " + " ".join(ops))
     found_big = C.oracle_search(ctx, big, oracle, "store-big")
     ctx.oblige(f"oracle:histories of more than 2^16 values ({len(big)} histories, implementation only)", not found_big)
